@@ -15,6 +15,7 @@ import tempfile
 import time
 import traceback
 from concurrent.futures import ProcessPoolExecutor
+from concurrent.futures.process import BrokenProcessPool
 
 from .core import Ob, Report, REPO, use_repo
 
@@ -132,6 +133,16 @@ def run_contracts(report: Report, specs, workers=16):
     from . import canary
     canary.run()      # the engine must refute a wrong contract and discharge a right one before its verdicts are used
     serial = bool(os.environ.get("VERIF_SERIAL"))
+    try:
+        return _run_contracts(report, specs, workers, serial)
+    except BrokenProcessPool:
+        # a worker process was killed from outside (seen once in a fresh sandbox under memory pressure): nothing was decided, so
+        # repeat the whole phase in this process, serially - slower, same obligations, same verdicts
+        report.extra.setdefault("runner_notes", []).append("process pool broke; contracts re-run serially in-process")
+        return _run_contracts(report, specs, workers, True)
+
+
+def _run_contracts(report: Report, specs, workers, serial):
     pool = None if serial else ProcessPoolExecutor(max_workers=workers)
     try:
         explored = [_explore(s) for s in specs] if serial else list(pool.map(_explore, specs))
